@@ -277,6 +277,27 @@ func runC14(c *core.Ctx) {
 func runC14Foreign(c *core.Ctx) {
 	t := c.T
 	donl := t.Chance(1, 3)
+	if t.Chance(1, 5) {
+		// WithDONL is switched between two batches on the SAME long-lived receiver
+		c14foreignBatch(c, donl, nil)
+		c.Probe("withdonl-toggled")
+		return
+	}
+	c14foreignBatch(c, donl, &codecs.H265Packet{})
+}
+
+// c14foreignBatch decodes one batch of foreign payloads; with long == nil two batches with different
+// DONL settings share one receiver whose WithDONL is switched in between.
+func c14foreignBatch(c *core.Ctx, donl bool, long *codecs.H265Packet) {
+	t := c.T
+	if long == nil {
+		shared := &codecs.H265Packet{}
+		c14foreignBatch(c, donl, shared)
+		if len(c.Viol) == 0 {
+			c14foreignBatch(c, !donl, shared)
+		}
+		return
+	}
 	units := genH265Units(t, 20+t.Intn(40))
 	// accessor sampling on drawn words (the property's 2^16 / 2^8 / 2^24 spaces are sampled, not enumerated)
 	for k := 0; k < 4; k++ {
@@ -299,8 +320,7 @@ func runC14Foreign(c *core.Ctx) {
 		}
 	}
 	ps, exp := foreignH265(t, units, donl)
-	long := &codecs.H265Packet{} // a receiver with a history must decode the same values as a fresh one
-	long.WithDONL(donl)
+	long.WithDONL(donl) // a receiver with a history must decode the same values as a fresh one
 	for i, p := range ps {
 		e := exp[i]
 		rx := &codecs.H265Packet{}
